@@ -83,6 +83,10 @@ impl TypeRegistry {
         self.reserved.insert(item_path);
     }
 
+    pub(crate) fn is_reserved(&self, item_path: &ItemPath) -> bool {
+        self.reserved.contains(item_path)
+    }
+
     fn is_known(&self, item_path: &ItemPath) -> bool {
         self.types.contains_key(item_path) || self.reserved.contains(item_path)
     }
